@@ -36,6 +36,12 @@ from the restarted instance and the record written at the first start),
 `C08_default_key_path_uses_names_as_written`.  Side conditions `NoClash` / `RecInj` (no record file
 of the configuration lands on a key path of the configuration; two key paths never share a record
 file) hold for every template whose key paths end in `.key` (`noClash_recInj_of_dotKey`).
+
+Key selection (round 9, `selectKey`): `C08_signed_domain_has_published_key` (the `d=` of an added
+signature has a normal form under which the instance holds the key that signed — for every
+configuration, `sign_subdomains` on or off, every sender spelling, EAI or not),
+`C08_signed_domain_is_a_configured_domain`, `C08_subdomain_signed_as_configured_domain`,
+`C08_selected_key_signature_verifies`.
 -/
 namespace MaddyVerif.C08
 open MaddyVerif.DkimWire
@@ -2163,6 +2169,169 @@ example :
     let s := history [.imp p .ed25519, .start c, .del (dnsPath p), .start c] ([], 0)
     (init c s.1 s.2).signers.lookup [101, 120, 46, 111, 114, 103] = some (0, .ed25519) ∧
     (init c s.1 s.2).fs.length = 3 := by decide
+
+/-! ## round 9: which key signs, in whose name (`sign_subdomains` included) -/
+
+/-- the oracle law the theorems need: the A-label form of a name has the normal form of the name
+(`dns.ForLookup ∘ idna.ToASCII = dns.ForLookup`; checked on every name of every differential case) -/
+def AsciiKeepsNorm (O : Oracle) : Prop := ∀ x a, O.ascii x = some a → O.norm a = O.norm x
+
+theorem finish_signed {O : Oracle} (hlaw : AsciiKeepsNorm O) {sg : Signers} {sel : Bytes} {utf8 : Bool}
+    {domain d s : Bytes} {id : Nat} {a : Algo}
+    (h : finish O sg sel utf8 domain = .signed d s id a) :
+    ∃ nd, O.norm domain = some nd ∧ O.norm d = some nd ∧ sg.lookup nd = some (id, a) := by
+  unfold finish at h
+  split at h
+  · cases h
+  · rename_i nd hn
+    split at h
+    · cases h
+    · rename_i id' a' hl
+      split at h
+      · injection h with h1 h2 h3 h4
+        subst h1 h3 h4
+        exact ⟨nd, hn, hn, hl⟩
+      · split at h
+        · cases h
+        · rename_i ad had
+          split at h
+          · cases h
+          · injection h with h1 h2 h3 h4
+            subst h1 h3 h4
+            exact ⟨nd, hn, by rw [hlaw _ _ had]; exact hn, hl⟩
+
+/-- **C08 (key selection).** Whatever the configuration (any domains in any spelling,
+`sign_subdomains` on or off), the envelope sender (any spelling, null, `postmaster`) and the kind of
+message (EAI or not): when a signature is added, the domain it names (`d=`) has a normal form under
+which the instance holds a key, and that key — the one whose record was published for that normal
+form — is the key that signed.  A message the configuration does not cover is never signed in a
+name for which no key is published. -/
+theorem C08_signed_domain_has_published_key (O : Oracle) (hlaw : AsciiKeepsNorm O)
+    (doms : List Bytes) (sub : Bool) (sg : Signers) (sel : Bytes) (utf8 : Bool) (f : From)
+    (d s : Bytes) (id : Nat) (a : Algo)
+    (h : selectKey O doms sub sg sel utf8 f = .signed d s id a) :
+    ∃ nd, O.norm d = some nd ∧ sg.lookup nd = some (id, a) := by
+  unfold selectKey at h
+  split at h
+  · cases h
+  · split at h
+    · cases h
+    · split at h
+      · cases h
+      · obtain ⟨nd, _, h2, h3⟩ := finish_signed hlaw h
+        exact ⟨nd, h2, h3⟩
+  · split at h
+    · cases h
+    · obtain ⟨nd, _, h2, h3⟩ := finish_signed hlaw h
+      exact ⟨nd, h2, h3⟩
+
+/-- every entry of `signers` comes from a configured domain (its normal form) -/
+theorem initLoop_signers_from_domains (tmpl sel : Bytes) (a : Algo) :
+    ∀ (ds : List (Bytes × Bytes)) (fs : FS) (n : Nat) (sg : Signers),
+      ∀ e ∈ (initLoop tmpl sel a ds fs n sg).signers, e ∈ sg ∨ ∃ d ∈ ds, d.2 = e.1 := by
+  intro ds
+  induction ds with
+  | nil => intro fs n sg e he; simp [initLoop] at he; exact Or.inl he
+  | cons d ds ih =>
+    intro fs n sg e he
+    unfold initLoop at he
+    split at he
+    · exact Or.inl he
+    · rename_i l hl
+      rcases ih _ _ _ e he with h | ⟨d', hd', h⟩
+      · simp at h
+        rcases h with rfl | h
+        · exact Or.inr ⟨d, by simp, rfl⟩
+        · exact Or.inl h
+      · exact Or.inr ⟨d', by simp [hd'], h⟩
+
+/-- **C08 (key selection, with the key store).** A signature added by an instance started with
+configuration `c` names a domain whose normal form is the normal form of a CONFIGURED domain. -/
+theorem C08_signed_domain_is_a_configured_domain (O : Oracle) (hlaw : AsciiKeepsNorm O)
+    (c : Cfg) (fs : FS) (n : Nat) (sub : Bool) (utf8 : Bool) (f : From)
+    (d s : Bytes) (id : Nat) (a : Algo)
+    (h : selectKey O (c.domains.map (·.1)) sub (init c fs n).signers c.sel utf8 f = .signed d s id a) :
+    ∃ cd ∈ c.domains, O.norm d = some cd.2 ∧ (init c fs n).signers.lookup cd.2 = some (id, a) := by
+  obtain ⟨nd, h1, h2⟩ := C08_signed_domain_has_published_key O hlaw _ sub _ _ utf8 f d s id a h
+  have hm := mem_of_lookup h2
+  rcases initLoop_signers_from_domains c.tmpl c.sel c.algo c.domains fs n [] _ hm with h | ⟨cd, hcd, he⟩
+  · simp at h
+  · simp at he
+    exact ⟨cd, hcd, by rw [h1, he], by rw [he]; exact h2⟩
+
+/-- **C08 (key selection).** `sign_subdomains`: a sender in a subdomain of the configured domain,
+spelled as configured, is signed in the name of the configured domain with its key (EAI message;
+for a non-EAI message `d=` is its A-label form). -/
+theorem C08_subdomain_signed_as_configured_domain (O : Oracle) (top : Bytes) (rest : List Bytes)
+    (sg : Signers) (sel domain nt : Bytes) (id : Nat) (a : Algo)
+    (hsuf : (46 :: top) <:+ domain) (hn : O.norm top = some nt) (hk : sg.lookup nt = some (id, a)) :
+    selectKey O (top :: rest) true sg sel true (.dom domain) = .signed top sel id a := by
+  have : (46 :: top).isSuffixOf domain = true := by simpa using hsuf
+  simp [selectKey, subRule, this, finish, hn, hk]
+
+/-- **C08 (key selection) + headline.** The published records are the records of the key pairs in
+`signers`, under the normal forms; the next hop finds the record under the normal form of `d=`.
+What the instance signs verifies against that record. -/
+theorem C08_selected_key_signature_verifies {D S} [DecidableEq D]
+    (K : KeyedScheme D S) (hcorrect : ∀ k d, K.vrfy k d (K.sign k d) = true)
+    (O : Oracle) (hlaw : AsciiKeepsNorm O)
+    (doms : List Bytes) (sub : Bool) (sg : Signers) (sel : Bytes) (utf8 : Bool) (f : From)
+    (d s : Bytes) (id : Nat) (a : Algo)
+    (h : selectKey O doms sub sg sel utf8 f = .signed d s id a)
+    (viaDisk : Bool) (hc bc : Canon) (ks : List Bytes) (h₀ : List Bytes) (bl : List Bytes)
+    (tmpl sig : Bytes)
+    (hwf : ∀ f ∈ h₀, RFCField f) (hsig : RFCField sig) (hbl : ∀ l ∈ bl, CleanLine l)
+    (hnot : ∀ k ∈ ks, maKey sig ≠ lowerA k)
+    (hb : trimRightCRLF (canonHeader hc (removeSig sig)) = trimRightCRLF (canonHeader hc tmpl)) :
+    ∃ nd pub, O.norm d = some nd ∧ sg.lookup nd = some (pub, a) ∧
+      ∃ p hdr body' hs bs,
+        maReadHeader (writeHeader h₀ ++ linesBytes bl) = some (hs, bs) ∧
+        nextHop viaDisk (sig :: h₀) (linesBytes bl) = some p ∧
+        maReadHeader p = some (hdr, body') ∧
+        verifyMsg (K.crypto id pub) hc bc ks hdr sig body'
+          (signMsg (K.crypto id pub) hc bc ks hs tmpl bs) = true := by
+  obtain ⟨nd, h1, h2⟩ := C08_signed_domain_has_published_key O hlaw doms sub sg sel utf8 f d s id a h
+  refine ⟨nd, id, h1, h2, ?_⟩
+  exact C08_signed_message_verifies_at_next_hop (K.crypto id id) (fun x => hcorrect id x)
+    viaDisk hc bc ks h₀ bl tmpl sig hwf hsig hbl hnot hb
+
+/-! ### non-vacuity, and the counterexample the theorem excludes -/
+
+/-- a small oracle: ASCII lower-casing as the normal form, every name is its own A-label form -/
+def exOracle : Oracle := ⟨fun x => some (lowerA x), fun x => some x⟩
+
+example : AsciiKeepsNorm exOracle := by
+  intro x a h
+  simp [exOracle] at h
+  subst h
+  rfl
+
+/-- `ex.org` configured with `sign_subdomains`; senders `m.ex.org` (covered: signed as `ex.org`),
+`EX.org` (the domain itself in another spelling: signed, `d=EX.org`, found under `ex.org`),
+`m.EX.org` (parent spelled differently: NOT covered, left unsigned), `x.net` (unrelated). -/
+example :
+    let sg : Signers := [([101, 120, 46, 111, 114, 103], 0, .ed25519)]
+    let doms : List Bytes := [[101, 120, 46, 111, 114, 103]]
+    selectKey exOracle doms true sg [115] true (.dom [109, 46, 101, 120, 46, 111, 114, 103])
+      = .signed [101, 120, 46, 111, 114, 103] [115] 0 .ed25519 ∧
+    selectKey exOracle doms true sg [115] false (.dom [69, 88, 46, 111, 114, 103])
+      = .signed [69, 88, 46, 111, 114, 103] [115] 0 .ed25519 ∧
+    selectKey exOracle doms true sg [115] true (.dom [109, 46, 69, 88, 46, 111, 114, 103])
+      = .unsigned .noKey ∧
+    selectKey exOracle doms false sg [115] true (.dom [109, 46, 101, 120, 46, 111, 114, 103])
+      = .unsigned .noKey ∧
+    selectKey exOracle doms true sg [115] true (.dom [120, 46, 110, 101, 116]) = .unsigned .noKey ∧
+    selectKey exOracle doms true sg [115] true .none = .signed [101, 120, 46, 111, 114, 103] [115] 0 .ed25519 ∧
+    selectKey exOracle [] true sg [115] true (.dom [120]) = .panic := by decide
+
+/-- C08-14: the sender `m.EX.org` is signed with the key of `ex.org` in the name `m.EX.org`, under
+whose normal form no key is held (none is published) — what `C08_signed_domain_has_published_key`
+rules out for the unchanged code -/
+example :
+    let sg : Signers := [([101, 120, 46, 111, 114, 103], 0, .ed25519)]
+    finishC0814 exOracle true sg [115] true [109, 46, 69, 88, 46, 111, 114, 103]
+      = .signed [109, 46, 69, 88, 46, 111, 114, 103] [115] 0 .ed25519 ∧
+    sg.lookup (lowerA [109, 46, 69, 88, 46, 111, 114, 103]) = none := by decide
 
 end KeyStore
 
